@@ -45,6 +45,35 @@ def run(ctx: core.Ctx) -> int:
         c = c04.to_case(len(cases) + 1, g, ctx.seed)
         c["checks"] = ALL
         cases.append(c)
+    # Git work trees in which the VCS ignores a REUSE.toml (alone, or with its whole directory): it is not configuration
+    plain = {"present": False, "cop": [], "lic": [], "bad": False}
+
+    def node(path, ncls="plain", ignored=False):
+        s_ = "/".join(path)
+        return {"path": path, "pathstr": s_, "pchars": list(s_), "ncls": ncls, "type": "text",
+                "anc": [{"cls": "plain", "symlink": False, "ignored": False, "submodule": False} for _ in path[:-1]],
+                "ignored": ignored, "unreadable": False, "cov": True, "own": {"cop": [], "lic": [], "bad": False}, "dot": dict(plain)}
+    full = {"globs": [list("**")], "prec": "override", "cop": ["2021 Ignored Config"],
+            "lic": [{"text": "MIT", "tree": {"key": "MIT", "base": "MIT"}}]}
+    for j, g in enumerate(rnd.sample(gens, 30 if q else 300)):
+        p = json.loads(json.dumps(g["p"]))
+        variant = j % 3
+        if variant == 0:       # the REUSE.toml itself is ignored; it would annotate a tracked file without information
+            p["files"] += [node(["data", "x.csv"]), node(["data", "REUSE.toml"], "REUSE.toml", True), node([".gitignore"], "hidden")]
+            p["tomls"].append({"dir": ["data"], "dirchars": list("data"), "srcstr": "data/REUSE.toml", "ignored": True, "tables": [full]})
+            gi, raw = "/data/REUSE.toml\n", {}
+        elif variant == 1:     # a whole ignored directory holds a REUSE.toml that is not even valid
+            p["files"] += [node(["build", "REUSE.toml"], "REUSE.toml", True), node(["build", "gen.py"], "plain", True), node([".gitignore"], "hidden")]
+            gi, raw = "build/\n", {"build/REUSE.toml": "version = \"one\"\n[[annotations]\n", "build/gen.py": "x = 1\n"}
+        else:                  # an ignored vendored tree with its own valid REUSE.toml
+            p["files"] += [node(["vendor", "pkg", "REUSE.toml"], "REUSE.toml", True), node(["vendor", "pkg", "lib.c"], "plain", True),
+                           node([".gitignore"], "hidden")]
+            p["tomls"].append({"dir": ["vendor", "pkg"], "dirchars": list("vendor/pkg"), "srcstr": "vendor/pkg/REUSE.toml",
+                               "ignored": True, "tables": [full]})
+            gi, raw = "vendor/\n", {}
+        label = json.dumps({"git-ignored-config": variant, "i1": g["i1"], "i2": g["i2"], "i3": g["i3"], "inv": sorted(g["inv"])})
+        cases.append({"tid": len(cases) + 1, "p": p, "checks": ALL, "label": label, "seed": ctx.seed + len(cases), "git": True,
+                      "raw_files": dict(raw, **{".gitignore": gi})})
     events = core.pmap(projmodel.run_project_case, cases, chunksize=16)
     for ev in events[:: max(1, n_lint // 3)][:3] + events[-1:]:
         o = ev["obs"]
